@@ -19,7 +19,7 @@ PROPS = {
         "level_note": "trusted: Verus+z3, extraction rules (R2, R3, R4, R19 incl. the new forms R19e/f/g), std "
                       "intrinsics (rotate_right, from/to_le_bytes, slice->array try_into().unwrap()), vstd's str model "
                       "(as_bytes == UTF-8 encoding), rustc/cargo for the evaluated binary",
-        "units": {"quick": [v("refimpl"), e("vectors")], "thorough": []},
+        "units": {"quick": [v("refimpl"), e("vectors")], "thorough": [s("C15")]},
         "explanation": "The Verus unit `refimpl` extracts all 24 functions of reference_impl.rs mechanically and verifies "
                        "their bodies: g / round / permute / compress equal sp_g / sp_round / sp_compress (the 7 rounds "
                        "with permute in between are the spec's sp_rounds over the iterated schedule sp_sched(r): lemma "
